@@ -89,7 +89,7 @@ def run(rep):
 
     # ---- Leg B: random tables in real geometry
     recs = []
-    n_cases = 60 if quick else 1200
+    n_cases = 140 if quick else 1500
     fams = list(gen.FAMILIES)
     for b in range(n_cases):
         fam = fams[b % len(fams)]
@@ -105,6 +105,23 @@ def run(rep):
             cut = float(rng.uniform(0.5, 7.0))
             if all(abs(x - cut * cut) > 1e-4 * max(1.0, cut * cut) for x in d2):
                 break
+        # boundary placement: in skewed cells the image obtained by rounding each fractional component is not always the nearest
+        # one; put the cut-off between the true minimum-image distance and that component-wise distance for some site pair
+        gaps = []
+        for a in range(S):
+            for c in range(a):
+                k = [w.sites_k[a][i] - w.sites_k[c][i] for i in range(3)]
+                cen = [((x % N) - N if 2 * (x % N) > N else (x % N)) for x in k]
+                t2, n2 = gen.min_image_sq(G, k, N, R) / N**2, gen.norm_sq(G, cen) / N**2
+                if n2 > t2 * 1.02:
+                    gaps.append((t2, n2, a, c))
+        forced = None
+        if gaps and rng.random() < 0.6:
+            t2, n2, ga, gc = gaps[int(rng.integers(0, len(gaps)))]
+            c2 = (t2 + n2) / 2
+            if all(abs(x - c2) > 1e-4 * max(1.0, c2) for x in d2):
+                cut = math.sqrt(c2)
+                forced = (ga, gc)
         nj = int(rng.integers(2, 15))
         nat = int(rng.integers(2, 5))
         rows = set()
@@ -114,6 +131,14 @@ def run(rep):
             dur = int(rng.choice([1, 1, 2, 3, 8, 15]))
             ss, ds = (int(x) for x in rng.choice(S, size=2, replace=False))
             rows.add((a, ss, ds, s0, s0 + dur))
+        if forced is not None:
+            # two simultaneous jumps by different atoms that end on the two sites of the chosen pair
+            ga, gc = forced
+            t0 = int(rng.integers(0, 30))
+            rows.add((0, int((ga + 1 + rng.integers(0, S - 1)) % S) if S > 1 else ga, ga, t0, t0 + 1))
+            rows.add((1, int((gc + 1 + rng.integers(0, S - 1)) % S) if S > 1 else gc, gc, t0, t0 + 1))
+            rows = {r_ for r_ in rows if r_[1] != r_[2]}
+            nat = max(nat, 2)
         rows = [list(x) for x in rows]
         rng.shuffle(rows)
         window = int(rng.integers(0, 7))
